@@ -21,11 +21,40 @@ CFG_KEYS = ['mark', 'nodir', 'globstar', 'dot', 'scandotdir', 'matchbase', 'brac
 
 def shards(tier, seed, scale=1.0):
     n = 400 if tier == 'quick' else 6000
-    return [{'name': 'wf-%d' % s, 'kind': 'wf', 'seed': seed * 1000 + s, 'n': max(10, int(n * scale))} for s in range(16)]
+    out = [{'name': 'wf-%d' % s, 'kind': 'wf', 'seed': seed * 1000 + s, 'n': max(10, int(n * scale))} for s in range(16)]
+    for ti in range(len(T.CATALOGUE)):
+        out.append({'name': 'literal-%d' % ti, 'kind': 'literal', 'tree': ti})
+    return out
 
 
 def run_shard(desc):
+    if desc['kind'] == 'literal':
+        return run_literal(desc)
     return run_wf(desc)
+
+
+def run_literal(desc):
+    """Every entry path of a catalogue tree (files, directories, symlinks incl. dangling ones) as a literal pattern, plus
+    star / globstar variants, through all five ways of giving the root."""
+    out = Outcome()
+    out.exhaustive = True
+    spec = T.CATALOGUE[desc['tree']]
+    with FC.built_tree(spec) as (root, _r):
+        model = T.Model(root)
+        entries = [p for p, _d, _l in model.all_entries(follow=False, max_depth=6)]
+        n = 0
+        for segs in FC.literal_variants(entries):
+            for cfg in ({}, {'mark': True}, {'globstar': True, 'dot': True}, {'nodir': True}):
+                if any(isinstance(x, str) for x in segs) and not cfg.get('globstar'):
+                    continue
+                for trail in (False, True) if len(segs) <= 2 else (False,):
+                    pp = A.PathPat(False, segs, trail, 1)
+                    n += 1
+                    res = check_case(root, spec, [pp], bool(n % 5 == 0), dict(cfg), out, desc['armed'])
+                    if res:
+                        out.nontrivial((desc['tree'], A.render_path(pp), tuple(sorted(cfg))))
+    out.sample({'stream': 'literal', 'tree_index': desc['tree'], 'entries': len(entries), 'cases': n})
+    return out
 
 
 def check_case(root, spec, pps, absolute, cfg, out, armed):
